@@ -116,6 +116,17 @@ macro_rules! vops { ($reg:expr, $p:expr, $V:ident, $n:expr, [$($i:tt)+]) => {{
         ep!($reg, format!("{}_reduce_partial_min", p), n, |a| { let x: $V<T> = Flat::rd(a); Out::of(vec![x.reduce_partial_min()]) });
         ep!($reg, format!("{}_reduce_partial_max", p), n, |a| { let x: $V<T> = Flat::rd(a); Out::of(vec![x.reduce_partial_max()]) });
     }
+    if n > 8 {
+        // wide vectors: lane k holds the free operand, the other lanes the constants a_j (all 2^(n-1) joint outcomes are out of reach)
+        for k in 0..n {
+            ep!($reg, format!("{}_reduce_partial_min_lane{}", p, k), 1, |a| {
+                let xs: Vec<T> = (0..n).map(|j| if j == k { a[0] } else { <T as From<u8>>::from(bg_a(j)) }).collect();
+                Out::of(vec![<$V<T> as Flat<T>>::rd(&xs).reduce_partial_min()]) });
+            ep!($reg, format!("{}_reduce_partial_max_lane{}", p, k), 1, |a| {
+                let xs: Vec<T> = (0..n).map(|j| if j == k { a[0] } else { <T as From<u8>>::from(bg_a(j)) }).collect();
+                Out::of(vec![<$V<T> as Flat<T>>::rd(&xs).reduce_partial_max()]) });
+        }
+    }
     ep!($reg, format!("{}_iter_sum", p), 3 * n, |a| { let v: Vec<$V<T>> = (0..3).map(|k| Flat::rd(&a[k * n..(k + 1) * n])).collect(); Out::of(v.into_iter().sum::<$V<T>>().flat()) });
     ep!($reg, format!("{}_iter_product", p), 3 * n, |a| { let v: Vec<$V<T>> = (0..3).map(|k| Flat::rd(&a[k * n..(k + 1) * n])).collect(); Out::of(v.into_iter().product::<$V<T>>().flat()) });
     ep!($reg, format!("{}_is_any_negative", p), n, |a| { let x: $V<T> = Flat::rd(a); Out::flag(x.is_any_negative()) }).dom = Dom::NonZero;
